@@ -263,6 +263,8 @@ def run_gaf_side_padded(scratch, variant, tag, aligned=False):
 
 
 def write_graph(path, text):
+    if NO_FINAL_NEWLINE[0]:
+        text = text.rstrip("\n")
     if path.endswith(".gz"):
         # two gzip members (what `cat a.gz b.gz` or bgzip produce): a valid gzip file
         data = text.encode()
@@ -345,12 +347,19 @@ def run_graph_side(scratch, gz, tag, lfirst=False):
     return out
 
 
+NO_FINAL_NEWLINE = [False]
+
+
 def graph_part(res, scratch):
-    for lfirst in (False, True):
-        base = run_graph_side(scratch, False, "gplain", lfirst)
-        got = run_graph_side(scratch, True, "ggz", lfirst)
-        res.nt(fw.h64(["graph-gz", lfirst]))
-        compare(res, base, got, "gzip-compressed graph" + (" (L lines before S lines)" if lfirst else ""), {"part": "graph"})
+    for lfirst, nonl in ((False, False), (True, False), (False, True), (True, True)):
+        NO_FINAL_NEWLINE[0] = nonl
+        try:
+            base = run_graph_side(scratch, False, "gplain", lfirst)
+            got = run_graph_side(scratch, True, "ggz", lfirst)
+        finally:
+            NO_FINAL_NEWLINE[0] = False
+        res.nt(fw.h64(["graph-gz", lfirst, nonl]))
+        compare(res, base, got, "gzip-compressed graph" + (" (L lines before S lines)" if lfirst else "") + (" (last line not newline terminated)" if nonl else ""), {"part": "graph"})
         res.count("subcommands_with_compressed_graph", len(base))
 
 
